@@ -17,7 +17,7 @@ def node_scale_1000(n):
 
 def detect_bound(fam, n, max_delay):
     f = FAMILIES[fam]
-    max_susp = f["mm"] * ((f["sm"] * node_scale_1000(n) * f["pi"]) // 1000)
+    max_susp = (f["mm"] * f["sm"] * node_scale_1000(n) * f["pi"]) // 1000
     return (2 * n + 2) * f["aw"] * f["pi"] + max_susp + max_delay
 
 
